@@ -41,8 +41,8 @@ class Outcome:
 
 def _exc_outcome(e, phase):
     kind = LIB_EXC if isinstance(e, E2PyclException) else FOREIGN_EXC
-    tb = ''.join(traceback.format_exception(type(e), e, e.__traceback__)[-3:])[-600:]
-    return Outcome(kind, exc=e, phase=phase, tb=tb)
+    # no traceback formatting here: on 3.12 it compiles source segments (audit 'compile' events inside C07's windows)
+    return Outcome(kind, exc=e, phase=phase, tb=None)
 
 
 def guarded(fn, phase):
